@@ -107,6 +107,7 @@ fn park_all(conn: &Connection, rng: &mut Rng, backlog: Backlog, keep: &mut Vec<B
             });
             }
             let c = conn.clone();
+            if backlog != Backlog::Datagrams {
             v.push(Parked {
                 name: "receive_datagram",
                 handle: tokio::spawn(async move {
@@ -116,6 +117,7 @@ fn park_all(conn: &Connection, rng: &mut Rng, backlog: Backlog, keep: &mut Vec<B
                     }
                 }),
             });
+            }
             let c = conn.clone();
             v.push(Parked { name: "closed", handle: tokio::spawn(async move { Res::Conn(conn_err(&c.closed().await)) }) });
         }
@@ -131,6 +133,8 @@ enum Backlog {
     None,
     Uni,
     Bi,
+    /// datagrams nobody receives (the hand-off queue holds one, the rest wait in the transport)
+    Datagrams,
 }
 
 async fn make_backlog(peer: &Connection, backlog: Backlog, n: usize) -> Result<Vec<Box<dyn std::any::Any + Send>>, String> {
@@ -138,6 +142,9 @@ async fn make_backlog(peer: &Connection, backlog: Backlog, n: usize) -> Result<V
     for i in 0..n {
         match backlog {
             Backlog::None => {}
+            Backlog::Datagrams => {
+                peer.send_datagram(&[i as u8; 20]).map_err(|e| e.to_string())?;
+            }
             Backlog::Uni => {
                 let mut s = within(ms(2000), async { peer.open_uni().await.map_err(|e| e.to_string())?.await.map_err(|e| e.to_string()) }).await.done().ok_or("open_uni timed out")??;
                 s.write_all(&[i as u8; 10]).await.map_err(|e| e.to_string())?;
@@ -304,7 +311,21 @@ async fn later_calls(conn: &Connection, backlog: Backlog) -> Vec<(&'static str, 
         })
         .await),
     ));
-    out.push(("later receive_datagram", c(within(BOUND, async { conn.receive_datagram().await.map(|d| format!("{} bytes", d.payload().len())) }).await)));
+    out.push((
+        "later receive_datagram",
+        c(within(BOUND, async {
+            let dd = if backlog == Backlog::Datagrams { 16 } else { 0 };
+            let mut n = 0;
+            loop {
+                match conn.receive_datagram().await {
+                    Ok(d) if n >= dd => break Ok(format!("{} bytes (after {n} backlog datagrams)", d.payload().len())),
+                    Ok(_) => n += 1,
+                    Err(e) => break Err(e),
+                }
+            }
+        })
+        .await),
+    ));
     out.push(("later closed", c(within(BOUND, async { Err::<String, _>(conn.closed().await) }).await)));
     // open_*: either the call or the opening future must fail
     let r = within(BOUND, async {
@@ -726,6 +747,7 @@ pub fn run(args: &Args) -> Report {
         let backlog = match p.get(2).copied() {
             Some("Uni") => Backlog::Uni,
             Some("Bi") => Backlog::Bi,
+            Some("Datagrams") => Backlog::Datagrams,
             _ => Backlog::None,
         };
         let n: u64 = p.get(3).and_then(|x| x.parse().ok()).unwrap_or(5);
@@ -757,7 +779,7 @@ pub fn run(args: &Args) -> Report {
                         // unaccepted streams of one kind queued in the driver when the end comes
                         if matches!(cause, Cause::PeerQuicClose | Cause::LocalClose) || args.thorough {
                             let backlog = if (k + observe_client as u64 + cause as u64) % 2 == 0 { Backlog::Uni } else { Backlog::Bi };
-                            for b in if args.thorough { vec![Backlog::Uni, Backlog::Bi] } else { vec![backlog] } {
+                            for b in if args.thorough { vec![Backlog::Uni, Backlog::Bi, Backlog::Datagrams] } else { vec![backlog, Backlog::Datagrams] } {
                                 set.spawn(async move {
                                     let mut r = Report::new();
                                     pair_case(cause, observe_client, b, seed ^ 0x5a5a, &mut r).await;
